@@ -22,6 +22,8 @@ DECLINED = ["map semantics of the config objects over arbitrary histories",
             "out-of-bounds freedom of the parsers (goto-analyzer too imprecise, see DESIGN 2.11)"]
 ASSUMPTIONS = ["ABTU_min/ABTU_max/ABTU_roundup helpers compute what their names say"]
 RULES_DOC = dict(common.SHARED_DOC)
+RULES_DOC["R6"] = "config getters: each out-parameter of ABT_{sched,pool}_config_get is written whenever the key is found and that out-parameter is non-NULL, independent of the other out-parameter (sibling agreement between the two getters)"
+RULES_DOC["R7"] = "every load_env_<T> call whose bound is one of the ABTD_ENV_*_MAX type limits uses the limit of its own type <T> (a 64-bit setting is not clamped with the 32-bit maximum)"
 RULES_DOC.update({
     "R1": "load_env_*: every return is max(min_val, min(max_val, X)), X in {parsed value, default}; parse error -> default; getenv / ABTU_ato* call sites confined",
     "R2": "rounded globals are assigned through their rounding function",
@@ -515,8 +517,63 @@ def rule_R5(P, rep):
     rep.need(n >= 2, "hashtable_delete: %d unlink paths" % n)
 
 
+def rule_R6(P, rep):
+    from abtverif import ctrldep
+    sigs = {}
+    for fn, file in (("ABT_sched_config_get", "src/sched/sched_config.c"), ("ABT_pool_config_get", "src/pool/pool_config.c")):
+        F = P.fn(fn, file)
+        outs = [p["n"] for p in F.params if p["t"].rstrip().endswith("*") and "const" not in p["t"]]
+        rep.need(len(outs) >= 2, "%s: out-parameters %s" % (fn, outs))
+        sig = {}
+        for o in outs:
+            # the write through o: a store `*o = ...` or a call that receives o as its destination
+            sites = [i for _b, i, lh, rh in F.stores() if F.nodes[F.strip(lh)].get("k") == "un" and F.nodes[F.strip(lh)]["op"] == "*" and
+                     F.base_var(lh) == o]
+            sites += [i for _b, i in F.calls() if any(F.nodes[F.strip(a)].get("k") == "ref" and F.nodes[F.strip(a)].get("n") == o
+                                                      for a in F.nodes[i]["a"]) and "read_element" in (F.nodes[i].get("fn") or "")]
+            rep.need(sites, "%s never writes through %s" % (fn, o))
+            gov = set()
+            for i in sites:
+                for lab, val, a in ctrldep.conditions(F, i):
+                    A = F.blocks[a]
+                    others = [x for x in A.succs if x is not None]
+                    # keep only tests of parameters (NULL tests of out-parameters); everything else (found, handle checks,
+                    # assertions) is common to both writes
+                    if lab in outs:
+                        gov.add((lab, val))
+            sig[o] = sorted(gov)
+            rep.ob("R6", "%s writes through `%s` whenever the key is found and `%s` is not NULL" % (fn, o, o), sig[o] == [(o, True)],
+                   "the write also depends on %s" % [g for g in sig[o] if g != (o, True)], loc=F.file, site="%s/out/%s" % (fn, o))
+        sigs[fn] = sorted(len(v) for v in sig.values())
+    rep.ob("R6", "sched and pool config getters agree", len(set(map(tuple, sigs.values()))) == 1, str(sigs),
+           loc="src/sched/sched_config.c", site="config-get/agree")
+
+
+def rule_R7(P, rep):
+    kinds = {"load_env_int": "ABTD_ENV_INT_MAX", "load_env_uint32": "ABTD_ENV_UINT32_MAX", "load_env_uint64": "ABTD_ENV_UINT64_MAX",
+             "load_env_size": "ABTD_ENV_SIZE_MAX"}
+    limits = set(kinds.values())
+    n = 0
+    for F in sorted(P.functions.values(), key=lambda f: (f.file, f.line)):
+        if F.file != ENV:
+            continue
+        for _b, i in F.calls(set(kinds)):
+            nd = F.nodes[i]
+            for a in nd["a"][2:]:
+                used = seq.macros_in(F, a) & limits
+                if not used:
+                    continue
+                n += 1
+                rep.ob("R7", "%s: %s(%s, ...) is bounded by the limit of its own type" % (F.name, nd["fn"], F.render(nd["a"][0])),
+                       used == {kinds[nd["fn"]]}, "bound %s used with %s" % (sorted(used), nd["fn"]), loc=F.loc(i),
+                       site="%s/%s/%s" % (F.name, nd["fn"], F.render(nd["a"][0])))
+    rep.need(n >= 8, "only %d type-limit bounds found" % n)
+
+
 def run(P, rep, tier):
     rule_R1(P, rep)
     rule_R2(P, rep)
     rule_R3_R4(P, rep)
     rule_R5(P, rep)
+    rule_R6(P, rep)
+    rule_R7(P, rep)
